@@ -203,6 +203,57 @@ theorem cleanup_exact {s : State} (hs : Reachable s) (now : Nat) :
   · intro k t ht
     exact getLive_deleteExpired s now t k (reachable_wf hs) ht
 
+/-- **enumeration = lookups**: in every reachable state `GetAll` lists exactly the revocations that
+    a `Get` of their own interface returns at the same instant -/
+theorem mem_getAll_iff {s : State} (hr : Reachable s) (now : Nat) (r : Rev) :
+    r ∈ getAll s now ↔ getLive s now r.key = some r := by
+  have hs := reachable_wf hr
+  constructor
+  · intro h
+    unfold getAll at h
+    obtain ⟨p, hp, rfl⟩ := List.mem_map.mp h
+    obtain ⟨hmem, hq⟩ := List.mem_filter.mp hp
+    have hk := (hs.2 p hmem).1
+    have hl := lookup_of_mem s p hs.1 hmem
+    unfold getLive
+    rw [← hk, hl]
+    simp only [Bool.not_eq_true'] at hq
+    simp [hq]
+  · intro h
+    unfold getLive at h
+    cases hl : lookup s r.key with
+    | none => simp [hl] at h
+    | some it =>
+      simp only [hl] at h
+      by_cases hexp : it.expired now = true
+      · simp [hexp] at h
+      · simp only [hexp] at h
+        have e : it.rev = r := Option.some.inj h
+        unfold getAll
+        refine List.mem_map.mpr ⟨(r.key, it), List.mem_filter.mpr ⟨lookup_mem s r.key it hl, ?_⟩, e⟩
+        simpa using hexp
+
+/-- … and lists at most one revocation per interface -/
+theorem getAll_keys_distinct {s : State} (hr : Reachable s) (now : Nat) :
+    (getAll s now).Pairwise (fun a b => a.key ≠ b.key) := by
+  have hs := reachable_wf hr
+  unfold getAll
+  have hf : NoDup (s.filter (fun p => !p.2.expired now)) := noDup_filter s _ hs.1
+  have hw : ∀ p ∈ s.filter (fun p => !p.2.expired now), p.1 = p.2.rev.key :=
+    fun p hp => (hs.2 p (List.mem_filter.mp hp).1).1
+  generalize s.filter (fun p => !p.2.expired now) = l at hf hw
+  induction l with
+  | nil => exact List.Pairwise.nil
+  | cons q rest ih =>
+    have hf' := List.pairwise_cons.mp hf
+    simp only [List.map_cons]
+    refine List.pairwise_cons.mpr ⟨?_, ih hf'.2 (fun p hp => hw p (List.mem_cons_of_mem _ hp))⟩
+    intro b hb
+    obtain ⟨p, hp, rfl⟩ := List.mem_map.mp hb
+    have := hf'.1 p hp
+    rw [hw q (List.mem_cons_self), hw p (List.mem_cons_of_mem _ hp)] at this
+    exact this
+
 /-- T3: the decisions of `memRevCache.Insert` as they stand in the source (regenerated on every
     run) are the three the model transcribes, in this order: reject when the remaining lifetime
     is not positive, store when nothing live is cached, replace only when strictly newer -/
@@ -231,5 +282,13 @@ example : Mono 0 [.insert 101000 rA, .get 110000 k1, .delExp 170000] := by
   simp [Mono, Op.time]
 
 example : Reachable (insert empty 101000 rA).1 := ⟨[.insert 101000 rA], rfl⟩
+
+/-- the enumeration of a two-interface cache: one entry per interface, expired one left out -/
+example :
+    (run empty [.insert 101000 rA, .insert 101500 ⟨⟨0x1ff0000000110, 6⟩, 1, 100, 300⟩,
+                .getAll 102000, .getAll 130000]).2 =
+      [.accepted true, .accepted true,
+       .all [⟨⟨0x1ff0000000110, 6⟩, 1, 100, 300⟩, rA], .all [⟨⟨0x1ff0000000110, 6⟩, 1, 100, 300⟩]] := by
+  decide +kernel
 
 end Scion.C31
